@@ -4,7 +4,14 @@ K: programs of up to 6 actors waiting on up to 2 barriers (sizes 0..6) run on th
    S4U interpreter harness/k1_sync; the sequence of wait() calls the kernel executed on each barrier is replayed through
    the extracted step function; who blocks, who is woken by which arrival, at which date, the bool returned by wait()
    and the kernel queue (PEEK) must be what the model says.
-O: the verified judge (C07_judge_sound) applied to the implementation's arrivals/returns only."""
+   Two-simcall protocol (model checker / replay mode): harness/k1_sync split mode sets MC_record_path() so that the real
+   s4u::Barrier::wait() issues BARRIER_ASYNC_LOCK then BARRIER_WAIT, and plays the checker on the real kernel: random
+   interleavings of the pending lock/wait simcalls of 1-5 actors re-using one barrier for 1-4 rounds (waits fired before
+   and after their grant); after every step ongoing_acquisitions_ (issuer, granted_), every pending acquisition (issuer,
+   granted_, blocked in wait_for?) and the waits that returned are compared with the extracted split model
+   (Barrier.sstep, theorems C07_split_*).
+O: the verified judge (C07_judge_sound) applied to the implementation's arrivals/returns only (one-simcall runs: wait()
+   calls in kernel order; split runs: ASYNC_LOCKs in handling order, every wait fired before the end)."""
 import fw
 import k1_common as k1
 
@@ -43,6 +50,163 @@ CORPUS = [
 ]
 
 
+# ---------------------------------------------------------------------------------------------- split protocol
+def gen_split(rng):
+    na = rng.randint(1, 5)
+    r = rng.random()
+    n = 0 if r < 0.03 else (rng.randint(1, na) if r < 0.85 else rng.randint(1, 5))
+    rounds = [rng.randint(1, 4) for _ in range(na)]
+    L = rng.randint(0, 3 * sum(rounds))
+    # biased choices: a run of small numbers keeps firing the lowest pids (lock+wait back to back), large ones spread
+    sched = [rng.randrange(12) if rng.random() < 0.7 else 0 for _ in range(L)]
+    return [-1, n, na] + rounds + [L] + sched
+
+
+SPLIT_CORPUS = [
+    [-1, 2, 2, 2, 2, 6, 0, 1, 0, 0, 0, 0],          # 1:LOCK 2:LOCK 1:WAIT 1:LOCK 1:WAIT 2:WAIT (2 marked, 1 re-uses)
+    [-1, 3, 3, 2, 2, 2, 9, 0, 1, 2, 0, 0, 0, 0, 0, 0],
+    [-1, 2, 2, 3, 3, 10, 0, 1, 0, 0, 0, 0, 1, 1, 0, 0],
+    [-1, 2, 4, 1, 1, 1, 1, 8, 0, 0, 1, 1, 0, 0, 0, 0],   # locks of two groups before any wait
+    [-1, 1, 2, 2, 2, 4, 0, 1, 0, 1],                     # size 1: every lock grants itself
+    [-1, 3, 3, 1, 1, 1, 6, 0, 0, 0, 0, 0, 0],            # wait right after each lock: the one-simcall order
+    [-1, 0, 2, 1, 1, 4, 0, 0, 0, 0],                     # size 0: nobody is ever granted
+]
+
+
+def parse_split(tok):
+    """-> dict(steps=[dict(kind, pid, rets=[pid..], queue=[(pid, granted)..], live=[(pid, granted, waiting)..])], status,
+    stray = RET events outside a step, bad = malformed)"""
+    steps, cur, status, stray, i = [], None, None, 0, 0
+    try:
+        while i < len(tok):
+            k = tok[i]
+            if k == 1:
+                i += 6
+            elif k == 2:
+                if cur is None:
+                    stray += 1
+                else:
+                    cur["rets"].append(tok[i + 1])
+                i += 6
+            elif k == 5:
+                cur = {"kind": tok[i + 1], "pid": tok[i + 2], "rets": [], "queue": None, "live": None}
+                steps.append(cur)
+                i += 3
+            elif k == 6:
+                nq = tok[i + 1]
+                q = [(tok[i + 2 + 2 * j], tok[i + 3 + 2 * j]) for j in range(nq)]
+                i += 2 + 2 * nq
+                na = tok[i]
+                lv = [(tok[i + 1 + 3 * j], tok[i + 2 + 3 * j], tok[i + 3 + 3 * j]) for j in range(na)]
+                i += 1 + 3 * na
+                cur["queue"], cur["live"] = q, lv
+                cur = None
+            elif k == 9:
+                if status is None or tok[i + 1] != 0:
+                    status = tok[i + 1]
+                i += 6
+            else:
+                status = 99
+                break
+    except IndexError:
+        status = 97
+    if status is None:
+        status = 98
+    return {"steps": steps, "status": status, "stray": stray}
+
+
+def parse_split_model(out, nsteps):
+    res, i = [], 0
+    for _ in range(nsteps):
+        code, k = out[i], out[i + 1]
+        woken = out[i + 2:i + 2 + k]
+        i += 2 + k
+        nq = out[i]
+        q = out[i + 1:i + 1 + nq]
+        i += 1 + nq
+        na = out[i]
+        lv = [tuple(out[i + 1 + 3 * j:i + 4 + 3 * j]) for j in range(na)]
+        i += 1 + 3 * na
+        res.append((code, woken, q, lv))
+    return res
+
+
+def run_split(ctx, cases, dist):
+    toks = k1.run_impl(cases, raw=True)
+    logs = [parse_split(t) for t in toks]
+    mins = [[c[1]] + [x for s in lg["steps"] for x in (s["kind"], s["pid"])] for c, lg in zip(cases, logs)]
+    mouts = fw.run_model("c07", "run_c07_split", mins)
+    # O: the verified judge on the implementation's observations: arrivals = the ASYNC_LOCKs in the order they were
+    # handled; the k-th return of an actor answers its k-th arrival; every wait has been fired when the run ends
+    jin, jwhere = [], []
+    for ci, (c, lg) in enumerate(zip(cases, logs)):
+        n = c[1]
+        if n < 1 or lg["status"] != 0:
+            continue
+        arr, nlock, retpos = [], 0, {}
+        for s in lg["steps"]:
+            if s["kind"] == 0:
+                nlock += 1
+                arr.append(s["pid"])
+            for p in s["rets"]:
+                retpos.setdefault(p, []).append(nlock)
+        seen, x = {}, [n]
+        for p in arr:
+            k = seen.get(p, 0)
+            seen[p] = k + 1
+            rp = retpos.get(p, [])
+            x += [0, rp[k] if k < len(rp) else -1, 0]
+        jin.append(x)
+        jwhere.append((ci, arr))
+    verdicts = fw.run_model("c07", "run_c07_judge", jin) if jin else []
+    for (ci, arr), v in zip(jwhere, verdicts):
+        for k, code in enumerate(v):
+            if code != 0:
+                ctx.fail("barrier-" + CODES.get(code, "bad-%d" % code),
+                         "two-simcall protocol, barrier of size %d: arrival #%d (ASYNC_LOCK of pid %d) %s; %d arrivals in all" % (
+                             cases[ci][1], k, arr[k], CODES.get(code, code), len(arr)), {"case": cases[ci]})
+    # K: model vs implementation, step by step
+    for ci, (c, lg, mo) in enumerate(zip(cases, logs, mouts)):
+        dist["split_programs"] += 1
+        nontriv = False
+        if lg["status"] != 0 or lg["stray"]:
+            ctx.fail("barrier-run-aborted", "two-simcall run aborted or malformed (status %d, %d stray returns)" % (lg["status"], lg["stray"]),
+                     {"case": c})
+            ctx.case(c, False, None)
+            continue
+        pm = parse_split_model(mo, len(lg["steps"]))
+        qlen_before = 0
+        for j, (s, (code, woken, q, lv)) in enumerate(zip(lg["steps"], pm)):
+            dist["split_steps"] += 1
+            what = None
+            if s["queue"] is None:
+                what = "the step did not complete"
+            elif code == 0:
+                what = "the model rejects the simcall the kernel had pending"
+            elif [p for p, _ in s["queue"]] != list(q) or any(g for _, g in s["queue"]):
+                what = "ongoing_acquisitions_ (pid, granted) = %s, model queue %s (never granted)" % (s["queue"], list(q))
+            elif sorted(s["live"]) != sorted(lv):
+                what = "pending acquisitions (pid, granted, waiting) = %s, model %s" % (sorted(s["live"]), sorted(lv))
+            else:
+                want = list(woken) if code == 2 else ([s["pid"]] if code == 4 else [])
+                if s["rets"] != want:
+                    what = "waits returned for %s, model %s" % (s["rets"], want)
+            if what is not None:
+                ctx.mismatch("K-barrier-split", "step %d (%s by pid %d): %s" % (j, "ASYNC_LOCK" if s["kind"] == 0 else "WAIT", s["pid"], what),
+                             {"case": c})
+                break
+            if code == 2:
+                dist["split_grants"] += 1
+                if qlen_before > len(woken):
+                    dist["split_marked"] += 1
+                    nontriv = True
+            if code == 3:
+                dist["split_blocks"] += 1
+                nontriv = True
+            qlen_before = len(q)
+        ctx.case(c, nontriv, {"program": c, "steps": len(lg["steps"])} if nontriv else None)
+
+
 def model_input(n, ops):
     inp = [n]
     for o in ops:
@@ -64,11 +228,17 @@ def run(ctx):
     ctx.prove()
     ctx.cov["rule"] = ("random programs: 1-6 actors, 1-2 barriers of size 0..6 (mostly <= number of actors), 1-4 waits per actor "
                        "separated by dyadic sleeps (ties on purpose), kernel-state PEEKs; non-trivial = some barrier released a group "
-                       "of >= 2 or left an incomplete group blocked; distinct = distinct programs")
+                       "of >= 2 or left an incomplete group blocked; distinct = distinct programs. Split programs (first number -1): "
+                       "1-5 actors x 1-4 rounds on one barrier of size 0..5 with a random schedule of the pending ASYNC_LOCK/WAIT "
+                       "simcalls; non-trivial = some WAIT was fired before its grant (blocks) or some group was granted while a "
+                       "member had locked but not yet waited (marked, not woken)")
     if ctx.replay:
         cases = [k1.replay_case(ctx)]
+        scases = [c for c in cases if c and c[0] == -1]
+        cases = [c for c in cases if not (c and c[0] == -1)]
     else:
         cases = list(CORPUS) + [gen_case(ctx.rng) for _ in range(ctx.n(300, 4000))]
+        scases = list(SPLIT_CORPUS) + [gen_split(ctx.rng) for _ in range(ctx.n(400, 6000))]
     logs = k1.run_impl(cases)
     jobs, where = [], []
     for ci, (c, log) in enumerate(zip(cases, logs)):
@@ -95,7 +265,10 @@ def run(ctx):
                 x += [o["t"], sum(1 for l in lines if l < o["ret"]["line"]), o["ret"]["t"]]
         jin.append(x)
     verdicts = fw.run_model("c07", "run_c07_judge", jin) if jin else []
-    dist = {"programs": len(cases), "barriers": len(where), "arrivals": 0, "releases": 0, "size0": 0, "deadlocked": 0}
+    dist = {"programs": len(cases), "barriers": len(where), "arrivals": 0, "releases": 0, "size0": 0, "deadlocked": 0,
+            "split_programs": 0, "split_steps": 0, "split_grants": 0, "split_marked": 0, "split_blocks": 0}
+    if scases:
+        run_split(ctx, scases, dist)
     nontriv = [False] * len(cases)
     blocked_forever = [False] * len(cases)
     # O: the judge on implementation observations
@@ -171,7 +344,9 @@ def run(ctx):
         ctx.case(c, nontriv[ci], {"program": c, "status": log["status"], "events": len(log["events"])} if nontriv[ci] else None)
     ctx.cov["input_distribution"] = dist
     ctx.assumptions += ["sequential contexts (contexts/nthreads:1): the order of the REQ lines is the order in which the kernel executes the calls",
-                        "non-MC path of s4u::Barrier::wait (one simcall); the BARRIER_ASYNC_LOCK/BARRIER_WAIT split used under simgrid-mc is not modelled",
+                        "two-simcall protocol: driven in-process in replay mode (MC_record_path set, the harness handles the pending "
+                        "simcalls as mc::RecordTrace::replay does); simgrid-mc's own exploration order is not what is tested, the "
+                        "theorems cover every interleaving",
                         "actors killed while blocked in a barrier are outside the property (the harness leaves at the deadlock report)"]
 
 
@@ -181,10 +356,18 @@ META = {
             "exactly when the arrival count reaches a multiple of n and releases exactly arrivals m-n..m-1 in arrival order (C07_groups, "
             "C07_release_iff_complete); arrival i returns exactly when n*(i/n+1) arrivals happened, never earlier (C07_no_early_return); the "
             "blocked actors are always the arrivals after the last complete group (C07_state_closed_form, C07_rearm); size 0 wraps and never "
-            "releases (C07_zero_never_releases). The step function is tied to the rebuilt library by replaying the kernel-ordered call sequence "
-            "of generated S4U programs (who blocks, who is woken when, returned bool, kernel queue); the verified judge (C07_judge_sound) decides "
+            "releases (C07_zero_never_releases). Two-simcall protocol of the model checker (BARRIER_ASYNC_LOCK / BARRIER_WAIT), every "
+            "interleaving of locks and waits by any number of actors with any reuse: a wait returns only when the n arrivals (in lock "
+            "order) of its group happened (C07_split_no_early_return), returns at once iff the group is complete and blocks iff not "
+            "(C07_split_wait_iff_complete, C07_split_blocked_incomplete), the queue is exactly the ungranted live acquisitions = arrivals "
+            "after the last complete group and a grant re-arms it (C07_split_state, C07_split_grant), and the split protocol refines the "
+            "one-simcall one on the accepted locks, same groups (C07_split_refines, C07_split_arrival_counter). The step functions is tied to the rebuilt library by replaying the kernel-ordered call sequence "
+            "of generated S4U programs (who blocks, who is woken when, returned bool, kernel queue) and, for the split protocol, by random "
+            "interleavings of the real lock/wait simcalls in replay mode compared step by step (queue with granted flags, pending "
+            "acquisitions granted/blocked, returned waits); the verified judge (C07_judge_sound) decides "
             "violations on the implementation's observations alone.",
-    "note": "Modelled: BarrierImpl::acquire_async + wait_for on the non-MC one-simcall path. Not modelled: the two-simcall MC path, sthread, "
+    "note": "Modelled: BarrierImpl::acquire_async + wait_for on the one-simcall path and on the two-simcall path of the model checker / replay "
+            "mode (the latter driven in-process, not through simgrid-mc). Not modelled: sthread, "
             "parallel contexts, kills of blocked actors (a kill of an actor blocked in a barrier segfaults in BarrierAcquisitionImpl::finish - "
             "reported, outside C07). Trusted: Coq kernel, extraction, harness/k1_sync.cpp, checks/k1_common.py (log projection).",
     "technique": "Coq proof (invariant over all op sequences, div/mod arithmetic) + replay correspondence on the real scheduler + verified trace judge",
